@@ -112,7 +112,7 @@ CLAIMED["C19"] = dict(
 )
 
 CLAIMED["C18"] = dict(
-    text="Bounded symbolic execution of the real asynchronous server lifecycle (BaseAsyncNetworkServerImpl.serve_forever / server_activate / server_close / shutdown / is_serving / is_listening through the real AsyncTCPNetworkServer) on a deterministic loop with in-memory listeners whose creation suspends: a solver-chosen history of lifecycle calls (each in a new task) and loop iterations, from a cold server or from a serving one with a connected client whose disconnection hook suspends. Asserted: shutdown() returns only when serving has fully stopped; serve_forever() ends only as returned / ServerAlreadyRunning (another one really running) / ServerClosedError (close really called); listeners closed after server_close(); a stopped server serves again, a second concurrent serve_forever is refused; no call hangs or raises anything else.",
+    text="Bounded symbolic execution of the real asynchronous server lifecycle (BaseAsyncNetworkServerImpl.serve_forever / server_activate / server_close / shutdown / is_serving / is_listening through the real AsyncTCPNetworkServer and AsyncUDPNetworkServer) on a deterministic loop with in-memory listeners whose creation suspends: a solver-chosen history of lifecycle calls (each in a new task) and loop iterations, from a cold server or from a serving one with a connected client whose disconnection hook suspends (UDP: a datagram whose handler suspends). Asserted: shutdown() returns only when serving has fully stopped; serve_forever() ends only as returned / ServerAlreadyRunning (another one really running) / ServerClosedError (close really called); listeners closed after server_close(); a stopped server serves again, a second concurrent serve_forever is refused; no call hangs or raises anything else.",
     design="4/C18",
     technique="symbolic execution of real code (CrossHair+z3) over lifecycle call histories on a deterministic asyncio loop",
     note="Asynchronous server only. The threaded standalone servers (ThreadsPortal, threading.Event hand-offs between OS threads) are NOT claimed: no installed engine makes thread interleavings symbolic. server_close() refused by the documented set-up guard (BusyResourceError) is treated as a refusal, not as a close.",
